@@ -19,6 +19,23 @@ CLAIMED = {
     ),
 }
 
+CLAIMED["C03"] = dict(
+    category="exploration",
+    text="Untyped closed terms over variables, lambda, application, let, literals, #Int+ / #Int<, if, closed ordered "
+         "record literals, field access, tuples, array literals and the declared variant type Opt with a two-arm case "
+         "are decided by an independent algorithm W in the harness (union-find types, generalisation of every let, row "
+         "cells: closed rows are sequences, rows introduced by field access are open finite maps with a tail). "
+         "gluon's typecheck_str must accept exactly the typable terms and its reported type, rendered and re-parsed "
+         "by the harness, must equal W's principal type after numbering variables by first occurrence (quantifier "
+         "placement ignored, scoping of inner foralls respected). Every accepted term is re-checked alpha-renamed, with "
+         "an unused binding added, and bound with an annotation of its own reported type: acceptance and type must not change.",
+    design_ref="DESIGN.md §4 C03",
+    note="W is the specification only on this fragment (no implicit arguments, higher-rank annotations, GADTs, effects, "
+         "update of open records). Findings: F52 (annotating with the reported type is rejected when the type has an "
+         "inner quantifier), F29/C03 (terms needing an infinite type overflow the native stack instead of being rejected).",
+    technique="runtime monitoring: differential against an executable reference model (algorithm W) plus metamorphic re-checks",
+)
+
 CLAIMED["C04"] = dict(
     category="translation_validation",
     text="Every generated program is compiled and run with the optimiser on and off on the real VM; result, failure and "
